@@ -76,9 +76,9 @@ func MutateStatic(t *sim.T, m *StaticModel, focus FaultFocus) string {
 	f := m.Feed
 	var kind int
 	if focus == FocusRefs {
-		kind = []int{2, 3, 4, 5, 6, 7, 16, 17, 18, 0, 19, 20, 14, 21}[t.Choose(14)]
+		kind = []int{2, 3, 4, 5, 6, 7, 16, 17, 18, 0, 19, 20, 14, 21, 24}[t.Choose(15)]
 	} else {
-		kind = t.Choose(24)
+		kind = t.Choose(25)
 	}
 	switch kind {
 	case 0: // blank a cell
@@ -387,6 +387,35 @@ func MutateStatic(t *sim.T, m *StaticModel, focus FaultFocus) string {
 		v := []string{"20240015", "20240100", "20241332", "20240230", "20230229", "00000000", "99999999", "20240001", "2024001", "202400150"}[t.Choose(10)]
 		setCell(tb, r, col, v)
 		return fmt.Sprintf("%s row %d col %s = %s", tb.Name, r+1, tb.Header[col], v)
+	case 24: // the same string used as an id in two unrelated tables (stop id == route id == trip id ...)
+		a := pickTable(t, f, "agency.txt", "routes.txt", "stops.txt", "trips.txt", "calendar.txt", "shapes.txt")
+		b := pickTable(t, f, "agency.txt", "routes.txt", "stops.txt", "trips.txt", "calendar.txt", "shapes.txt")
+		if a == nil || b == nil || a == b || len(a.Rows) == 0 || len(b.Rows) == 0 {
+			return ""
+		}
+		ca, cb := a.Col(idCols[a.Name]), b.Col(idCols[b.Name])
+		ra, rb := t.Choose(len(a.Rows)), t.Choose(len(b.Rows))
+		oldID, newID := cell(a, ra, ca), cell(b, rb, cb)
+		if oldID == "" || newID == "" || !setCell(a, ra, ca, newID) {
+			return ""
+		}
+		// keep references to the renamed entity resolvable
+		for _, tb := range f.Tables {
+			if tb.Raw != nil {
+				continue
+			}
+			for _, rc := range refCols[tb.Name] {
+				c := tb.Col(rc)
+				for r := range tb.Rows {
+					if strings.HasPrefix(rc, strings.TrimSuffix(strings.TrimSuffix(idCols[a.Name], "_id"), "s")) || rc == idCols[a.Name] || (a.Name == "stops.txt" && (rc == "parent_station" || rc == "from_stop_id" || rc == "to_stop_id")) {
+						if cell(tb, r, c) == oldID {
+							setCell(tb, r, c, newID)
+						}
+					}
+				}
+			}
+		}
+		return fmt.Sprintf("%s id %q renamed to %q, the id of a %s row", a.Name, oldID, newID, b.Name)
 	case 20: // a reference column made blank
 		tb := pickTable(t, f, "routes.txt", "stops.txt", "transfers.txt", "trips.txt", "stop_times.txt", "frequencies.txt")
 		if tb == nil || len(tb.Rows) == 0 {
